@@ -1381,6 +1381,9 @@ class Engine(CondMixin, Interp):
             return False
         if self.own_helper(fi) or (fi.cls is not None and fi.cls.qname in self.user_q):
             return True
+        # module-level helpers of the action packages (ids_of_node(tracks, n), pick_lineage(tracks, pred, succ), ...)
+        if fi.cls is None and fi.parent is None and (".actions." in fi.qname or ".user_actions." in fi.qname):
+            return True
         # a pure STRUCTURAL query of the data model that the interpreter has no native model for (it looks at degrees /
         # neighbours and returns nodes or edges): the guards that justify a sub-edit may have been moved there
         if fi.cls is not None and self.P.is_subclass(fi.cls.qname, "Tracks") and not fi.name.startswith("_"):
